@@ -16,7 +16,7 @@ func init() { Monitors["C10"] = runC10 }
 
 type ctxKeyT string
 
-var dirtyActions = []string{"set", "adderror", "replace-resp", "replace-req", "abort", "status", "write", "params", "sethandlers-noop", "header", "retain", "params-inplace", "query-mutate", "render-fail", "render-ok", "allowed-inplace", "redispatch", "hijack", "jsonp-unencodable", "json-ok", "jsonp-ok", "json-unencodable"}
+var dirtyActions = []string{"set", "adderror", "replace-resp", "replace-req", "abort", "status", "write", "params", "sethandlers-noop", "header", "retain", "params-inplace", "query-mutate", "render-fail", "render-ok", "allowed-inplace", "redispatch", "hijack", "jsonp-unencodable", "json-ok", "jsonp-ok", "json-unencodable", "handover"}
 
 // c10Renderer writes part of the page and then fails when asked to.
 type c10Renderer struct{}
@@ -103,6 +103,13 @@ func dirtyContext(c *rux.Context, rec *Rec, actions []string) {
 			// (the arming header is removed first, so the second dispatch is a plain one)
 			c.Req.Header.Del("X-Dirty")
 			c.Router().HandleContext(c)
+		case "handover":
+			// the handler hands the request over to another router (an api sub-router that is no
+			// http.Handler mount): that router dispatches the context the main router owns
+			c.Req.Header.Del("X-Dirty")
+			sub := rux.New()
+			sub.NotFound(func(c *rux.Context) { c.SetStatus(204) })
+			sub.HandleContext(c)
 		case "hijack":
 			// the handler takes over the connection (websocket style) through the writer it was given
 			if hj, ok := c.Resp.(http.Hijacker); ok {
@@ -155,6 +162,10 @@ func ctxSnapshot(c *rux.Context, rec *Rec) string {
 	if want, ok := rec.Extra["req"]; ok {
 		ownReq = want == any(c.Req)
 	}
+	ownRouter := true
+	if want, ok := rec.Extra["router"]; ok {
+		ownRouter = want == any(c.Router())
+	}
 	qv := c.QueryValues()
 	var qk []string
 	for k, vs := range qv {
@@ -168,9 +179,9 @@ func ctxSnapshot(c *rux.Context, rec *Rec) string {
 		sort.Strings(list)
 		allowed = strings.Join(list, ",")
 	}
-	return fmt.Sprintf("query=%v page=%q allowed=%s data=%v params={%s} params_nil=%v errors=%d errors_nil=%v errors_spare_capacity=%d first_error=%v aborted=%v status=%d length=%d resp_type=%T raw_writer_is_own=%v req_is_own=%v handler_nil=%v",
+	return fmt.Sprintf("query=%v page=%q allowed=%s data=%v params={%s} params_nil=%v errors=%d errors_nil=%v errors_spare_capacity=%d first_error=%v aborted=%v status=%d length=%d resp_type=%T raw_writer_is_own=%v req_is_own=%v handler_nil=%v router_is_own=%v",
 		qk, c.Query("page"), allowed, keys, fmtParams(copyParams(c.Params)), c.Params == nil, len(c.Errors), c.Errors == nil, cap(c.Errors)-len(c.Errors), c.FirstError(), c.IsAborted(), c.StatusCode(), c.Length(),
-		c.Resp, c.RawWriter() == any(rec), ownReq, c.Handler() == nil)
+		c.Resp, c.RawWriter() == any(rec), ownReq, c.Handler() == nil, ownRouter)
 }
 
 func snapMW(c *rux.Context) {
@@ -184,7 +195,7 @@ func snapMW(c *rux.Context) {
 }
 
 func runC10(e *Env) {
-	e.Rule = "request histories (10..60 requests) on one router built from a generated registration program with an always-first snapshot middleware (or, on routers without any global middleware, the first instrumented handler of the chain snapshots); requests mix static, dynamic, 404, 405 routes; per request a designated handler performs dirtying actions drawn from {Set many keys, AddError x2, replace c.Resp, replace c.Req, Abort, SetStatus, write, assign Params, edit the Params map in place, edit the parsed query values, render a template (successfully or failing half way), set a response header, retain a Copy() of the context and its Data() map for 'background work' that writes to them while later requests are being served}, or panics (with an OnPanic hook, or without one so that the panic escapes ServeHTTP and is recovered by the caller), or serves a nested request. Observed by the first handler of every request: parsed query values, Data keys, Params, Errors, IsAborted, StatusCode, Length, type of c.Resp, RawWriter is this request's writer, c.Req is this request, Handler() non-nil, *Context pointer. Oracle (twin): the snapshot and the outcome of the k-th request equal those of the same request sent as the FIRST request to a freshly built identical router. Pooled-context reuse is measured by pointer identity; zero reuse => inconclusive. Non-trivial: a request served by a reused context whose previous user dirtied it; distinct by (program, history prefix). Further actions: edit the allowed-methods list in place, re-dispatch through HandleContext, hijack the connection; routes without variables but with an optional part; the snapshot also shows the allowed list and the nil-ness of Params and is checked for markers only an earlier handler can have written. The dirtying actions include JSON/JSONP responses of encodable and unencodable values (whatever a failed encoding left behind must not show in a later body)."
+	e.Rule = "request histories (10..60 requests) on one router built from a generated registration program with an always-first snapshot middleware (or, on routers without any global middleware, the first instrumented handler of the chain snapshots); requests mix static, dynamic, 404, 405 routes; per request a designated handler performs dirtying actions drawn from {Set many keys, AddError x2, replace c.Resp, replace c.Req, Abort, SetStatus, write, assign Params, edit the Params map in place, edit the parsed query values, render a template (successfully or failing half way), set a response header, retain a Copy() of the context and its Data() map for 'background work' that writes to them while later requests are being served}, or panics (with an OnPanic hook, or without one so that the panic escapes ServeHTTP and is recovered by the caller), or serves a nested request. Observed by the first handler of every request: parsed query values, Data keys, Params, Errors, IsAborted, StatusCode, Length, type of c.Resp, RawWriter is this request's writer, c.Req is this request, Handler() non-nil, *Context pointer. Oracle (twin): the snapshot and the outcome of the k-th request equal those of the same request sent as the FIRST request to a freshly built identical router. Pooled-context reuse is measured by pointer identity; zero reuse => inconclusive. Non-trivial: a request served by a reused context whose previous user dirtied it; distinct by (program, history prefix). Further actions: edit the allowed-methods list in place, re-dispatch through HandleContext, hand the request over to another router's HandleContext (the snapshot includes whether c.Router() is the serving router), hijack the connection; routes without variables but with an optional part; the snapshot also shows the allowed list and the nil-ness of Params and is checked for markers only an earlier handler can have written. The dirtying actions include JSON/JSONP responses of encodable and unencodable values (whatever a failed encoding left behind must not show in a later body)."
 	e.Assumptions = []string{
 		"sequential histories: sync.Pool hands the same *Context back almost always (measured, not assumed)",
 		"a fresh identical router is the specification of 'pristine'",
@@ -250,7 +261,7 @@ func c10Case(t *T) {
 		}
 		req.URL.RawQuery = hdr["X-RawQuery"]
 		rec := NewRec()
-		rec.Extra = map[string]any{"req": req, "want_snapshot": true, "retain_sink": sk}
+		rec.Extra = map[string]any{"req": req, "want_snapshot": true, "retain_sink": sk, "router": rt}
 		pv, panicked := catch(func() { rt.ServeHTTP(rec, req) })
 		return rec, pv, panicked
 	}
